@@ -16,6 +16,7 @@ import (
 	"bytes"
 	"crypto/sha1"
 	"encoding/base64"
+	"encoding/binary"
 	"encoding/gob"
 	"fmt"
 	"hash"
@@ -149,50 +150,47 @@ func RuleHash(state *core.BuildState, target *core.BuildTarget, runtime, postBui
 }
 
 func ruleHash(state *core.BuildState, target *core.BuildTarget, runtime bool) []byte {
+	// Every string is written length-prefixed and every list with its length first, so that
+	// no two different definitions can produce the same byte stream (e.g. by moving characters
+	// between adjacent entries or entries between adjacent fields).
 	h := sha1.New()
-	h.Write([]byte(target.Label.String()))
-	for _, dep := range target.DeclaredDependencies() {
-		h.Write([]byte(dep.String()))
+	hashString(h, target.Label.String())
+	deps := target.DeclaredDependencies()
+	hashLen(h, len(deps))
+	for _, dep := range deps {
+		hashString(h, dep.String())
 	}
+	hashLen(h, len(target.Visibility))
 	for _, vis := range target.Visibility {
-		h.Write([]byte(vis.String())) // Doesn't strictly affect the output, but best to be safe.
+		hashString(h, vis.String()) // Doesn't strictly affect the output, but best to be safe.
 	}
-	for _, hsh := range target.Hashes {
-		h.Write([]byte(hsh))
-	}
-	for _, source := range target.AllSources() {
-		h.Write([]byte(source.String()))
-	}
-	for _, out := range target.DeclaredOutputs() {
-		h.Write([]byte(out))
-	}
+	hashStrings(h, target.Hashes)
+	hashInputs(h, target.Sources)
+	hashNamedInputs(h, target.NamedSources)
+	hashStrings(h, target.DeclaredOutputs())
 	outs := target.DeclaredNamedOutputs()
-	for _, name := range target.DeclaredOutputNames() {
-		h.Write([]byte(name))
-		for _, out := range outs[name] {
-			h.Write([]byte(out))
-		}
+	outNames := target.DeclaredOutputNames()
+	hashLen(h, len(outNames))
+	for _, name := range outNames {
+		hashString(h, name)
+		hashStrings(h, outs[name])
 	}
-	for _, licence := range target.Licences {
-		h.Write([]byte(licence))
-	}
-
-	for _, output := range target.OptionalOutputs {
-		h.Write([]byte(output))
-	}
-	for _, label := range target.Labels {
-		h.Write([]byte(label))
-	}
-	for _, secret := range target.Secrets {
-		h.Write([]byte(secret))
-	}
+	hashStrings(h, target.Licences)
+	hashStrings(h, target.OptionalOutputs)
+	hashStrings(h, target.Labels)
+	hashStrings(h, target.Secrets)
+	hashNamedStrings(h, target.NamedSecrets)
+	// The names tools are given determine the environment of the action (the tools themselves
+	// are covered by the dependencies above and by the source hash).
+	hashInputs(h, target.Tools)
+	hashNamedInputs(h, target.AllNamedTools())
 	hashBool(h, target.IsBinary)
-	hashOptionalBool(h, target.IsSubrepo)
-	hashOptionalBool(h, target.Sandbox)
+	hashBool(h, target.IsSubrepo)
+	hashBool(h, target.Sandbox)
 
 	// Note that we only hash the current command here; whatever's set in commands that we're not going
 	// to run is uninteresting to us.
-	h.Write([]byte(target.GetCommand(state)))
+	hashString(h, target.GetCommand(state))
 
 	hashBool(h, target.NeedsTransitiveDependencies)
 	hashBool(h, target.OutputIsComplete)
@@ -202,21 +200,21 @@ func ruleHash(state *core.BuildState, target *core.BuildTarget, runtime bool) []
 	hashBool(h, target.IsRemoteFile)
 	hashBool(h, target.Local)
 	hashBool(h, target.SrcListFiles)
-	hashOptionalBool(h, target.ExitOnError)
-	for _, require := range target.Requires {
-		h.Write([]byte(require))
-	}
+	hashBool(h, target.ExitOnError)
+	hashStrings(h, target.Requires)
 	// Indeterminate iteration order, yay...
 	provideKeys := make([]string, 0, len(target.Provides))
 	for k := range target.Provides {
 		provideKeys = append(provideKeys, k)
 	}
 	sort.Strings(provideKeys)
+	hashLen(h, len(provideKeys))
 	for _, lang := range provideKeys {
 		vs := target.Provides[lang]
-		h.Write([]byte(lang))
+		hashString(h, lang)
+		hashLen(h, len(vs))
 		for _, l := range vs {
-			h.Write([]byte(l.String()))
+			hashString(h, l.String())
 		}
 	}
 	// We don't need to hash the functions themselves because they get rerun every time -
@@ -225,39 +223,91 @@ func ruleHash(state *core.BuildState, target *core.BuildTarget, runtime bool) []
 	// any amount of other stuff).
 	hashBool(h, target.PreBuildFunction != nil)
 	hashBool(h, target.PostBuildFunction != nil)
+	hashBool(h, target.PassEnv != nil)
 	if target.PassEnv != nil {
+		hashLen(h, len(*target.PassEnv))
 		for _, env := range *target.PassEnv {
-			h.Write([]byte(env))
-			h.Write([]byte{'='})
-			h.Write([]byte(os.Getenv(env)))
+			hashString(h, env)
+			hashString(h, os.Getenv(env))
 		}
 	}
 
+	hashLen(h, len(target.OutputDirectories))
 	for _, o := range target.OutputDirectories {
-		h.Write([]byte(o))
+		hashString(h, string(o))
 	}
 
 	hashMap(h, target.EntryPoints)
 	hashMap(h, target.Env)
 
-	h.Write([]byte(target.FileContent))
+	hashString(h, target.FileContent)
 
 	// Hash the test and runtime fields
+	hashBool(h, runtime)
 	if runtime {
-		for _, datum := range target.AllData() {
-			h.Write([]byte(datum.String()))
-		}
+		hashInputs(h, target.Data)
+		hashNamedInputs(h, target.NamedData)
+		hashBool(h, target.IsTest())
 		if target.IsTest() {
-			for _, output := range target.Test.Outputs {
-				h.Write([]byte(output))
-			}
-			hashOptionalBool(h, target.Test.Sandbox)
-			h.Write([]byte(target.GetTestCommand(state)))
-			h.Write([]byte(target.Test.ArgsPlaceholder))
+			hashStrings(h, target.Test.Outputs)
+			hashBool(h, target.Test.Sandbox)
+			hashString(h, target.GetTestCommand(state))
+			hashString(h, target.Test.ArgsPlaceholder)
+			hashNamedInputs(h, target.NamedTestTools())
 		}
 	}
 
 	return h.Sum(nil)
+}
+
+func hashLen(writer hash.Hash, n int) {
+	var b [binary.MaxVarintLen64]byte
+	writer.Write(b[:binary.PutUvarint(b[:], uint64(n))])
+}
+
+func hashString(writer hash.Hash, s string) {
+	hashLen(writer, len(s))
+	writer.Write([]byte(s))
+}
+
+func hashStrings(writer hash.Hash, ss []string) {
+	hashLen(writer, len(ss))
+	for _, s := range ss {
+		hashString(writer, s)
+	}
+}
+
+func hashInputs(writer hash.Hash, inputs []core.BuildInput) {
+	hashLen(writer, len(inputs))
+	for _, input := range inputs {
+		hashString(writer, input.String())
+	}
+}
+
+func hashNamedInputs(writer hash.Hash, named map[string][]core.BuildInput) {
+	keys := make([]string, 0, len(named))
+	for k := range named {
+		keys = append(keys, k)
+	}
+	sort.Strings(keys)
+	hashLen(writer, len(keys))
+	for _, k := range keys {
+		hashString(writer, k)
+		hashInputs(writer, named[k])
+	}
+}
+
+func hashNamedStrings(writer hash.Hash, named map[string][]string) {
+	keys := make([]string, 0, len(named))
+	for k := range named {
+		keys = append(keys, k)
+	}
+	sort.Strings(keys)
+	hashLen(writer, len(keys))
+	for _, k := range keys {
+		hashString(writer, k)
+		hashStrings(writer, named[k])
+	}
 }
 
 func hashMap(writer hash.Hash, eps map[string]string) {
@@ -266,8 +316,10 @@ func hashMap(writer hash.Hash, eps map[string]string) {
 		keys = append(keys, ep)
 	}
 	sort.Strings(keys)
+	hashLen(writer, len(keys))
 	for _, ep := range keys {
-		writer.Write([]byte(ep + "=" + eps[ep]))
+		hashString(writer, ep)
+		hashString(writer, eps[ep])
 	}
 }
 
@@ -276,12 +328,6 @@ func hashBool(writer hash.Hash, b bool) {
 		writer.Write(boolTrueHashValue)
 	} else {
 		writer.Write(boolFalseHashValue)
-	}
-}
-
-func hashOptionalBool(writer hash.Hash, b bool) {
-	if b {
-		hashBool(writer, b)
 	}
 }
 
